@@ -6,6 +6,7 @@ for n in "${names[@]}"; do
   prop=${n%%-*}
   [ -f "$n/props" ] && props=$(cat "$n/props") || props=$prop
   res=$(/verif/tools/trymut.sh /verif/seeded/$n/patch.diff $props 2>&1)
+  echo "$res" > /verif/seeded/$n/last_run.txt
   echo "$n: $(echo "$res" | grep '^==' | tr '\n' ' ')"
   echo "$res" | grep -E 'signature=|PATCH DOES NOT|INCONCLUSIVE' | head -3 | cut -c1-220
 done
